@@ -291,7 +291,13 @@ def pred_of(op, args, arm, dim=3):
     if op == "Laplace":
         if arm == "mul-two":
             v = [a for a in args[0].args if not a.is_number]
-            if any(not a.is_commutative for a in v):
+
+            def nonscalar(a):
+                try:
+                    return GConcrete(random.Random(0), dim=dim, deg=1).g(ser_g(a))[0] != "s"
+                except Exception:  # noqa
+                    return not a.is_commutative
+            if any(nonscalar(a) for a in v):
                 return "vector-factor"
             return "pow-variable-exponent" if any(var_pow(a) for a in v) else "none"
         return "none"
